@@ -61,4 +61,88 @@ CLAIMS = {
   'technique': 'static analysis: path-sensitive guard/order/pairing and '
                'suspension-window check over the ast and call graph',
  },
+ 'C05': {
+  'text': 'Decides, per packet path, the clauses visible in the code shape: '
+          'the server dispatch table over all 7 packet types + unknown (one '
+          'arm each, arguments are the decoded packet\'s own fields and the '
+          'own transport id, CONNECT_ERROR/unknown rejected); binary '
+          'reassembly (dispatch only when complete, buffer entry removed '
+          'first, BINARY_ACK to the ack path); the connected-namespace gate '
+          'dominating the single handler launch; position-by-position '
+          'binding of the background/inline launch; ACK iff handled and id '
+          'is not None evaluated over id in {None, 0, positive}; ACK '
+          'namespace/id/transport and payload packing; engine.io built with '
+          'async_handlers=False. Exactly-once over whole sequences and '
+          'cross-client ACK isolation follow from these per-path facts and '
+          'are not explored as histories.',
+  'note': TRUST + 'engine.io delivers one client\'s frames in order.',
+  'technique': 'static analysis: decision table over packet types and id '
+               'domain by symbolic path enumeration, guard dominance, '
+               'call-binding',
+ },
+ 'C06': {
+  'text': 'Decides the structural clauses: trigger_callback deletes exactly '
+          'the looked-up entry before invoking it and treats an unknown id '
+          'as a silent no-op (lookup-failure path enumerated); every value '
+          'that can be loaded from the callback table and invoked was stored '
+          'as a callback parameter, anything else must sit under a '
+          'module-private sentinel key (this is the rule that exposed the '
+          'id-0 defect, fixed); ids come from one per-client counter created '
+          'once; one fresh id per recipient carried by the packet sent to '
+          'that recipient; _handle_ack resolves the sid from (own '
+          'transport, packet namespace); call() result table over '
+          'len in {0,1,2+} and TimeoutError exactly on wait failure. '
+          'Histories with reconnects are covered only through C11 cleanup.',
+  'note': TRUST + 'wire ids cannot be identical to an object() sentinel.',
+  'technique': 'static analysis: typestate/order on enumerated paths, '
+               'container provenance, decision table',
+ },
+ 'C09': {
+  'text': 'Client twin of C05/C06: dispatch table (7 types + unknown) and '
+          'reassembly of the client; one handler dispatch and exactly one '
+          'ACK iff the event carried an id (id over None/0/positive) with '
+          'its namespace and id after the handler; payload packing; '
+          'callback typestate in _handle_ack; callback-table provenance '
+          '(sentinel key for the counter); per-namespace counter; emit '
+          'generates the id for its namespace before building the packet; '
+          'call() table. Per packet path, not over sequences.',
+  'note': TRUST,
+  'technique': 'static analysis: decision tables by symbolic path '
+               'enumeration, typestate, provenance',
+ },
+ 'C11': {
+  'text': 'Decides that every per-client table is released on every way '
+          'out: the per-transport tables of the server and the per-sid '
+          'tables of the manager are *derived* from the stores the code '
+          'makes (so a newly added table is checked too); each must be '
+          'released on every path of _handle_eio_disconnect - exceptional '
+          'exits caused by raising application handlers included - or of '
+          'basic_disconnect, which must be reachable from transport end; '
+          'after pre_disconnect the matching manager.disconnect happens on '
+          'every exit; a raising handler does not skip the remaining '
+          'namespaces; emptied rooms/namespaces/pending lists are '
+          'collected; background-task references are discarded. Memory '
+          'growth as a number is NOT decided.',
+  'note': TRUST + 'raisers = calls that reach application code over the '
+          'call graph.',
+  'technique': 'static analysis: must-release pairing over enumerated '
+               'paths with exceptional exits, table derivation, call-graph '
+               'reachability',
+ },
+ 'C12': {
+  'text': 'Decides the mechanisms named by the property: wire-declared '
+          'numbers (attachment count, id) never flow into range(), sequence '
+          'repetition or sized constructors anywhere in the package '
+          '(syntactic taint with a built-in positive control); the '
+          'count-exceeded test precedes the append, the count digits are '
+          'bounded before int(), the id scanner is bounded and overflow '
+          'rejected; per-transport state is indexed only by the handler\'s '
+          'own transport id; the packet-type whitelist; decoding precedes '
+          'dispatch and its error is not caught in the library; the '
+          'connected gate; every answer goes to the sender\'s transport. '
+          'Global non-interference over all server states is NOT decided.',
+  'note': TRUST + 'engine.io contains exceptions of the message callback.',
+  'technique': 'static analysis: taint-to-sink scan, guard dominance on '
+               'enumerated paths, key provenance',
+ },
 }
